@@ -22,6 +22,21 @@ def plan(rnd, k, wd):
         tasks.append(t)
     return {'lead': 3, 'horizon': 16, 'tasks': tasks}
 
+def restart_plan(rnd, k, wd):
+    """a session across a crash of the daemon: it is killed outright at +63 s (its periodic checkpoint is at about +57 s) and
+    started again at +65 s; occurrences before, and well after, the down time"""
+    tasks = []
+    for i in range(4):
+        uid = 's%dr%d' % (k, i)
+        t = {'uid': uid, 'jobsecs': 0, 'limit': 0, 'maxsim': 0, 'cwd': wd, 'umask': 0o22}
+        if i % 2 == 0:
+            occ = sorted(set([rnd.randint(1, 12), rnd.randint(72, 80), rnd.randint(81, 86)])); t.update(start=occ[0], rdates=occ, occ=occ)
+        else:
+            st = rnd.randint(1, 8); iv = rnd.choice([37, 38, 39]); t.update(start=st, rrule='FREQ=SECONDLY;INTERVAL=%d;COUNT=3' % iv, occ=[st + j * iv for j in range(3)])
+        tasks.append(t)
+    return {'lead': 3, 'horizon': 92, 'kill_at': 63, 'restart_at': 65, 'tasks': tasks}
+
+
 def run(tier, seed):
     t0 = time.time()
     wd = vlib.workdir('X-' + NAME)
@@ -33,9 +48,9 @@ def run(tier, seed):
     recs = []
     for k in range(nsess):
         w = f'{wd}/s{k}'; os.makedirs(w)
-        p = plan(rnd, k, w)
+        p = restart_plan(rnd, k, w) if (tier == 'thorough' and k == nsess - 1) else plan(rnd, k, w)
         json.dump(p, open(w + '/plan.json', 'w'))
-        r = subprocess.run(['unshare', '-n', '-m', 'python3', f'{vlib.VERIF}/harness/e2e/inner.py', B, w, w + '/plan.json', w + '/out.json'], capture_output=True, text=True, timeout=120)
+        r = subprocess.run(['unshare', '-n', '-m', 'python3', f'{vlib.VERIF}/harness/e2e/inner.py', B, w, w + '/plan.json', w + '/out.json'], capture_output=True, text=True, timeout=240)
         if not os.path.exists(w + '/out.json'):
             raise vlib.Broken('end-to-end session did not complete:\n' + r.stderr[-1500:])
         o = json.load(open(w + '/out.json'))
